@@ -58,6 +58,7 @@ def registry():
     condfolds2(reg)
     condfolds3(reg)
     dates(reg)
+    criteria(reg)
     dates2(reg)
     dates3(reg)
     overrides(reg)
@@ -235,6 +236,13 @@ def compare(reg):
             'blank_vs_date': 'implies(is_empty(left_operand) and is_dateish(right_operand), result == opres(operator, True, False))',
             'date_vs_blank': 'implies(is_dateish(left_operand) and is_empty(right_operand), result == opres(operator, False, False))',
             'blank_vs_blank': 'implies(is_empty(left_operand) and is_empty(right_operand), result == opres(operator, False, True))',
+            'truth_value': 'is_bool(result)',
+            # the statement (C10) places a blank cell below every positive number and at 0; it says nothing about negative
+            # numbers, and EmptyCell.__gt__ answers False for them - the clauses are stated for numbers >= 0
+            'blank_vs_number': 'implies(is_empty(left_operand) and is_num(right_operand) and not is_empty(right_operand) and '
+                               'R(right_operand) >= 0.0, result == opres(operator, 0.0 < R(right_operand), 0.0 == R(right_operand)))',
+            'number_vs_blank': 'implies(is_num(left_operand) and not is_empty(left_operand) and is_empty(right_operand) and '
+                               'R(left_operand) >= 0.0, result == opres(operator, False, R(left_operand) == 0.0))',
         },
         raises={'ExcelInPythonException': 'not is_op(operator)',
                 'TypeError': 'is_op(operator) and S(operator) != "==" and S(operator) != "!=" and '
@@ -1031,3 +1039,80 @@ def overrides2(reg):
         raises={'Exception': f'not has(self._arguments, cell_uid) and is_fn({meth}) and raises1({meth}, self)'},
         notes='override first, else the generated method, else blank; the method is not even evaluated for an '
               'overridden cell (its exception cannot surface: the raises clause is an iff)'))
+
+
+# ------------------------------------------------------------------------------------------------ C12: criterion acceptance
+def criteria(reg):
+    """_accepts(value, criterion, operand): the typed instances - a criterion that is a number, a boolean or a date-time
+    (=SUMIF(r, E1, ...), =SUMIF(r, 5, ...)) and a comparison operator joined to such an operand (">"&E3).  The text instances
+    (operator prefix parsing, wildcards, date parsing: str / re / dateutil) stay with the bounded monitor."""
+    def excel_text(ex, st, args, kwargs, node):
+        from pv.symexec import fresh
+        S = T()
+        r = fresh('xtext', S.V)
+        return [(st.add(S.is_('Str', r)), r)]
+    reg.external('method:_excel_value_to_string', excel_text, 'text form of a value (C17); only reached with a non-operator text')
+    OP6 = '(S(criterion) == "=" or S(criterion) == "<>" or S(criterion) == ">" or S(criterion) == "<" or S(criterion) == ">=" or S(criterion) == "<=")'
+    pre = [f'(is_none(operand) and not is_str(criterion)) or (not is_none(operand) and not is_str(operand) and is_str(criterion) and {OP6})',
+           'implies(is_int(value), -9007199254740992 <= I(value) and I(value) <= 9007199254740992)',
+           'implies(is_int(criterion), -9007199254740992 <= I(criterion) and I(criterion) <= 9007199254740992)',
+           'implies(is_int(operand), -9007199254740992 <= I(operand) and I(operand) <= 9007199254740992)']
+    op = 'ite(is_none(operand), "==", ite(S(criterion) == "=", "==", ite(S(criterion) == "<>", "!=", S(criterion))))'
+    crit = 'ite(is_none(operand), criterion, operand)'
+    number = '((is_int(value) or is_float(value)) and not is_bool(value) and not is_empty(value))'
+    cnum = f'((is_int({crit}) or is_float({crit}) or is_empty({crit})) and not is_bool({crit}))'
+    cval = f'ite(is_empty({crit}), 0.0, R({crit}))'
+    post = {
+        'is_bool': 'is_bool(result)',
+        'number_criterion': f'implies({cnum}, Bv(result) == ite({op} == "!=", not ({number} and R(value) == {cval}), '
+                            f'{number} and opres({op}, R(value) < {cval}, R(value) == {cval})))',
+        'date_criterion': f'implies(is_datetime({crit}), Bv(result) == ite({op} == "!=", '
+                          f'not (is_dateish(value) and dkey(value) == dkey({crit})), '
+                          f'is_dateish(value) and opres({op}, dkey(value) < dkey({crit}), dkey(value) == dkey({crit}))))',
+        'boolean_criterion_boolean_cell': f'implies(is_bool({crit}) and is_bool(value), Bv(result) == opres({op}, '
+                                          f'R(value) < R({crit}), R(value) == R({crit})))',
+        'text_cell_never_meets_a_typed_criterion': f'implies(is_str(value) and (is_num({crit}) or is_dateish({crit})), '
+                                                   f'Bv(result) == ({op} == "!="))',
+        'blank_cell': f'implies(is_empty(value) and ({cnum} or is_dateish({crit})), Bv(result) == ({op} == "!="))',
+    }
+    kinds = {'num': 'int|float|empty', 'bool': 'bool', 'date': 'date|datetime'}
+    names = {'=': 'eq', '<>': 'ne', '>': 'gt', '<': 'lt', '>=': 'ge', '<=': 'le'}
+
+    def clauses(pyop, crit):
+        cnum = f'((is_int({crit}) or is_float({crit}) or is_empty({crit})) and not is_bool({crit}))'
+        cval = f'ite(is_empty({crit}), 0.0, R({crit}))'
+        neg = pyop == '!='
+        def both(comparable, lt, eq):
+            return f'not ({comparable} and {eq})' if neg else f'{comparable} and opres("{pyop}", {lt}, {eq})'
+        return {
+            'is_bool': 'is_bool(result)',
+            'number_criterion': f'implies({cnum}, Bv(result) == ({both(number, f"R(value) < {cval}", f"R(value) == {cval}")}))',
+            'date_criterion': f'implies(is_dateish({crit}), Bv(result) == '
+                              f'({both("is_dateish(value)", f"dkey(value) < dkey({crit})", f"dkey(value) == dkey({crit})")}))',
+            'boolean_criterion_boolean_cell': f'implies(is_bool({crit}) and is_bool(value), Bv(result) == '
+                                              f'opres("{pyop}", R(value) < R({crit}), R(value) == R({crit})))',
+            'text_cell_never_meets_a_typed_criterion': f'implies(is_str(value) and (is_num({crit}) or is_dateish({crit})), '
+                                                       f'Bv(result) == {neg})',
+            'blank_cell': f'implies(is_empty(value) and ({cnum} or is_dateish({crit})), Bv(result) == {neg})',
+        }
+    ints = ['implies(is_int(value), -9007199254740992 <= I(value) and I(value) <= 9007199254740992)',
+            'implies(is_int(criterion), -9007199254740992 <= I(criterion) and I(criterion) <= 9007199254740992)',
+            'implies(is_int(operand), -9007199254740992 <= I(operand) and I(operand) <= 9007199254740992)']
+    note = ('C12: a criterion of one kind is met only by cells of that kind - a number (or blank, counted as 0) by numbers with the '
+            'exact comparison, a date by dates at the same instant / in the given order, a boolean by booleans; <> is the negation '
+            'of =; a text cell and a blank cell never meet a typed =, <, > criterion and always meet <>. Text criteria (operator '
+            'prefix, wildcards, numeric and date texts) are bounded (C12.monitor.criteria_*). Instance: ')
+    for kind, sort in kinds.items():
+        reg.add(Contract(
+            f'_accepts/plain/{kind}', 'runtime:_accepts',
+            {**SELF, 'value': 'int|float|bool|empty|str|date|datetime', 'criterion': sort, 'operand': 'none'},
+            self_class='ExcelInPython', requires=ints, ensures=clauses('==', 'criterion'), callees={'_by_operator': '_by_operator'},
+            notes=note + f'the criterion itself, of kind {kind} (equality)'))
+        for sign, nm in names.items():
+            pyop = {'=': '==', '<>': '!='}.get(sign, sign)
+            reg.add(Contract(
+                f'_accepts/{nm}/{kind}', 'runtime:_accepts',
+                {**SELF, 'value': 'int|float|bool|empty|str|date|datetime', 'criterion': 'str', 'operand': sort},
+                self_class='ExcelInPython', requires=[f'S(criterion) == "{sign}"'] + ints, ensures=clauses(pyop, 'operand'),
+                callees={'_by_operator': '_by_operator'},
+                notes=note + f'the operator text "{sign}" joined to an operand of kind {kind}'))
